@@ -20,6 +20,7 @@ import (
 	"fmt"
 	"reflect"
 	"strings"
+	"time"
 )
 
 var (
@@ -174,11 +175,18 @@ func ExtractValue(v reflect.Value, extractor ValueExtractor) {
 	}
 
 	if v.Kind() == reflect.Struct {
+		if v.Type() == _timeType {
+			// a timestamp is a scalar on the wire: its internals (time.Location, ...)
+			// are no classes and must not take the names of user types
+			return
+		}
 		for i := 0; i < v.NumField(); i++ {
 			ExtractValue(v.Field(i), extractor)
 		}
 	}
 }
+
+var _timeType = reflect.TypeOf(time.Time{})
 
 //TypeMapOf type
 func TypeMapOf(typ reflect.Type) map[string]reflect.Type {
@@ -225,6 +233,12 @@ func FetchType(typ reflect.Type, typMap map[string]reflect.Type) {
 	}
 
 	if typ.Kind() != reflect.Struct {
+		return
+	}
+
+	if typ == _timeType {
+		// a scalar on the wire, see ExtractValue
+		typMap[typ.Name()] = typ
 		return
 	}
 
